@@ -14,7 +14,7 @@ Print Assumptions conforming_reverse.
 Theorem apply_reverse : forall o p A B,
   define_macro o = [] -> verbose o = false -> reverse_patch_opt o = true -> (0 <= max_fuzz o)%Z ->
   Conforming A B (hunks p) -> (Z.of_nat (length B) < MAXZ)%Z ->
-  no_top_insertion B (map reverse_hunk (hunks p)) ->
+  creation_guard (reverse_patch p) B ->
   exists r, apply_patch o B p = Ok r /\ r_out r = A /\ r_failed r = 0 /\ r_rej r = [] /\
             r_skipped r = false /\ r_perfect r = true /\ r_msgs r = [].
 Proof. exact Proofs_Conf.apply_reverse. Qed.
